@@ -4,8 +4,10 @@
 Static corruptions of a FRESH-by-mtime entry:
     trunc k      the first k bytes, every k in 0..len(file)   (k = len is the intact control)
     zero k       full length, bytes from offset k on are NUL, k stepping by 16 (torn, zero-extended)
-    foreign v    another xonsh version / another Python minor / another release level, carrying a
-                 loadable payload that prints a tell-tale marker; a 5000-byte line without newline
+    foreign v    another xonsh version / another Python minor / another release level / a stamp that
+                 properly extends (0.24.1 -> 0.24.10, 0.24.1.dev3) or is a proper prefix (0.24.) of the
+                 running one, on either version line - each carrying a loadable payload that prints a
+                 tell-tale marker; a 5000-byte line without newline
     dir          a directory in place of the file
     unreadable   mode 000 with the DAC capabilities dropped
     flip b       exactly one bit of the payload (the bytes after the two version lines) inverted.
@@ -46,7 +48,9 @@ ENTRY = {
     "script": {"kind": "script", "text": BODIES[1], "mode": "exec"},
     "code": {"kind": "code", "text": CODES[1], "mode": "single"},
 }
-FOREIGN = ["xonsh", "py", "py-level", "long-line"]
+# other versions, plus the six near-miss stamps (proper extension by a digit / by ".dev3", proper prefix, on
+# the xonsh line or on the Python line), each carrying the tell-tale payload
+FOREIGN = ["xonsh", "py", "py-level", "long-line"] + core.NEAR_STAMPS
 PRESTATES = {"script": ["absent", "older"], "code": ["absent", "foreign"]}
 
 _RIG = None
@@ -153,6 +157,8 @@ def _corruption(entry, cls, arg):
         name = "zero-tail"
     elif cls == "foreign":
         name = "foreign-version"
+        if arg in core.NEAR_STAMPS:  # the running stamp properly extended / cut short on one line
+            name = "version-stamp-prefix" if arg.endswith("+prefix") else "version-stamp-extension"
         if arg == "long-line":
             content = b"A" * 5000
         else:
